@@ -40,6 +40,10 @@ SK = {
     'cte-named-like-table': ("WITH tbl2 AS (SELECT * FROM {A}.tbl1) SELECT * FROM {B}.tbl2", {'int1': {'tbl1'}, 'int2': {'tbl2'}}, []),
     'cte-named-like-table-join': ("WITH tbl2 AS (SELECT a, id FROM {A}.tbl1) SELECT * FROM tbl2 JOIN {B}.tbl2 AS u ON tbl2.id = u.id", {'int1': {'tbl1'}, 'int2': {'tbl2'}}, []),
     'cte-unused-named-like-table': ("WITH tbl1 AS (SELECT b FROM {B}.tbl2) SELECT a FROM {A}.tbl1 AS t JOIN {B}.tbl3 AS u ON t.id = u.id", {'int1': {'tbl1'}, 'int2': {'tbl3'}}, []),
+    # a CTE named like the unqualified table (of the default namespace) that its own body reads: inside the body the name means the table
+    'cte-shadows-default-table': ("WITH tbl9 AS (SELECT * FROM tbl9 WHERE a = 1) SELECT a FROM tbl9", {'mindsdb': {'tbl9'}}, []),
+    'cte-shadows-default-table-nested': ("WITH c AS (WITH tbl9 AS (SELECT * FROM tbl9) SELECT a FROM tbl9) SELECT * FROM c JOIN {A}.tbl1 AS t ON t.a = c.a", {'mindsdb': {'tbl9'}, 'int1': {'tbl1'}}, []),
+    'cte-shadows-default-table-join': ("WITH tbl9 AS (SELECT * FROM tbl9) SELECT * FROM tbl9 JOIN {A}.tbl1 AS t ON t.id = tbl9.id", {'mindsdb': {'tbl9'}, 'int1': {'tbl1'}}, []),
     'two-models': ("SELECT * FROM {A}.tbl1 AS t JOIN {M}.pred AS m JOIN {P}.pred2 AS m2", {'int1': {'tbl1'}}, [('mindsdb', ['pred']), ('proj', ['pred2'])]),
     'select-from-model': ("SELECT p FROM {M}.pred WHERE x = 1", {}, [('mindsdb', ['pred'])]),
     'ts-model-join': ("SELECT * FROM {A}.tbl1 AS t JOIN {M}.tspred AS m WHERE t.ts > LATEST", {'int1': {'tbl1'}}, [('mindsdb', ['tspred'])]),
@@ -71,6 +75,20 @@ for _j in G_JOINS:
         for _w in G_WHERES[:3]:
             for _tg, _tail in G_TAILS2:
                 GEN.append('SELECT %s FROM {A}.tbl1 AS a %s {B}.tbl2 AS b ON %s%s%s' % (_tg, _j, _on, (' WHERE ' + _w) if _w else '', _tail))
+
+# third generated block: the joined tables live in ONE integration (the join itself could be sent there whole) while a subquery in WHERE / the
+# select list / a CASE reads a table of another integration: placement of the tables x position of the foreign subquery x join kind
+G_FOREIGN = [('*', 'a.x IN (SELECT z FROM {B}.tbl4)'), ('a.x, (SELECT max(z) FROM {B}.tbl4) AS m', None), ('*', 'a.x > (SELECT max(z) FROM {B}.tbl4) AND b.y = 1'),
+             ('*', 'a.x NOT IN (SELECT z FROM {B}.tbl4 WHERE z IS NOT NULL)'), ('CASE WHEN a.x IN (SELECT z FROM {B}.tbl4) THEN 1 ELSE 0 END AS f', None),
+             ('a.x, b.y', 'b.y = (SELECT min(z) FROM {B}.tbl4) OR a.x = 0'), ('coalesce((SELECT max(z) FROM {B}.tbl4), a.x) AS c', 'a.x > 0')]
+for _j in G_JOINS:
+    for _on in ('a.id = b.id', 'a.id > b.id'):
+        for _tg, _w in G_FOREIGN:
+            for _tail in ('', ' ORDER BY a.x LIMIT 2'):
+                GEN.append('SELECT %s FROM {A}.tbl1 AS a %s {A}.tbl3 AS b ON %s%s%s' % (_tg, _j, _on, (' WHERE ' + _w) if _w else '', _tail))
+for _tg, _w in G_FOREIGN:
+    GEN.append('SELECT %s FROM {A}.tbl1 AS a, {A}.tbl3 AS b%s' % (_tg, (' WHERE ' + _w) if _w else ''))
+    GEN.append('SELECT %s FROM (SELECT * FROM {A}.tbl1) AS a JOIN {A}.tbl3 AS b ON a.id = b.id%s' % (_tg, (' WHERE ' + _w) if _w else ''))
 
 
 def gen_expected(tmpl):
